@@ -17,7 +17,7 @@ func init() {
 	core.Register(&core.Prop{
 		ID:    "C20",
 		Level: "fault_enumeration",
-		Rule: "for every generated template (all standard tags incl. tablerow, cycle, include from the cache, capture, nested loops, raw/comment, every trim-marker position, a harness-registered tag and block): one fault-free FRender with a counting writer gives W Write calls and output O; then for EVERY k in 0..W-1 and three fault shapes (accept nothing; accept a strict prefix; fail once then accept again) the render is repeated with the injecting writer through FRender or ParseAndFRender. Non-trivial = a (template, k, shape) whose fault was actually reached; distinct = distinct (template source, k, shape).",
+		Rule: "for every generated template (all standard tags incl. tablerow, cycle, include from the cache, capture, nested loops, raw/comment, every trim-marker position, a harness-registered tag and block): one fault-free FRender with a counting writer gives W Write calls and output O; then for EVERY k in 0..W-1 and four fault shapes (accept nothing; accept half; accept all but the last byte; fail once then accept again) the render is repeated with the injecting writer through FRender or ParseAndFRender. Non-trivial = a (template, k, shape) whose fault was actually reached; distinct = distinct (template source, k, shape).",
 		Exhaustive: func(string) bool { return true },
 		Assumptions: []string{
 			"the injected error is a unique sentinel; 'carrying that failure' is accepted as: reachable through Cause()/Unwrap() chains, or its text contained in Error()",
@@ -30,7 +30,7 @@ func init() {
 
 type faultWriter struct {
 	failAt  int
-	shape   int // 0 nothing, 1 strict prefix, 2 nothing but later writes succeed
+	shape   int // 0 nothing, 1 half, 2 nothing but later writes succeed, 3 all but the last byte
 	calls   int
 	failed  bool
 	after   int
@@ -50,8 +50,11 @@ func (w *faultWriter) Write(p []byte) (int, error) {
 	}
 	if w.calls == w.failAt {
 		w.failed = true
-		if w.shape == 1 {
+		if w.shape == 1 || w.shape == 3 {
 			n := len(p) / 2
+			if w.shape == 3 && len(p) > 0 { // accept everything but the last byte
+				n = len(p) - 1
+			}
 			w.acc.Write(p[:n])
 			return n, w.err
 		}
@@ -115,6 +118,9 @@ var c20Fixed = []string{
 	"a {%- comment -%} c {%- endcomment -%} b", "{% for i in arr %}{{ i }}{% if forloop.index == 2 %}{% break %}{% endif %}{% endfor %}done",
 	"{% for i in earr %}{% else %}empty{% endfor %} {{- 1 }}", "{{ arr | join: ',' }}{{ sarr | sort | first }}{{ 'x' | append: s }}",
 	"{% ublock %}{% tablerow i in (1..2) %}{{ i }}{% endtablerow %}{% endublock %}", "text {{- nothing -}} text",
+	"a long run of literal text, well over sixty-four bytes, that precedes a table row so that a partial write has room to matter {% tablerow i in (1..2) %}{{ i }}{% endtablerow %} and more text after it",
+	"{{ s | append: ' padded out to a rather long value so that the chunk is big ........................................' }}{% tablerow i in arr cols: 2 %}x{% endtablerow %}",
+	"0123456789012345678901234567890123456789012345678901234567890123456789{% for i in (1..2) %}{% cycle 'a', 'b' %}{% endfor %}0123456789012345678901234567890123456789{% include 'inc/c.html' %}",
 }
 
 func runC20(c *core.Ctx) {
@@ -183,7 +189,7 @@ func runC20(c *core.Ctx) {
 			c.Sample(map[string]any{"source": src, "write_calls": W, "output": core.Trunc(O, 120)})
 		}
 		for k := 0; k <= W; k++ {
-			for shape := 0; shape < 3; shape++ {
+			for shape := 0; shape < 4; shape++ {
 				fw := &faultWriter{failAt: k, shape: shape, err: sentinel}
 				var res core.Res
 				entry := "FRender"
@@ -198,7 +204,7 @@ func runC20(c *core.Ctx) {
 				c.Eval(1)
 				wit := func() map[string]any {
 					return map[string]any{"source": src, "bindings": env.String(), "entry": entry, "fail_at_write": k, "of_writes": W,
-						"shape": []string{"accept nothing", "accept half", "fail once then accept"}[shape], "observed": res.Brief(),
+						"shape": []string{"accept nothing", "accept half", "fail once then accept", "accept all but the last byte"}[shape], "observed": res.Brief(),
 						"accepted": core.Trunc(fw.acc.String(), 200), "fault_free_output": core.Trunc(O, 200)}
 				}
 				if k == W {
